@@ -150,13 +150,29 @@ func (fl *File) Position(idx Idx) *Position {
 
 	position.Filename = fl.name
 	position.Offset = offset
-	position.Line = strings.Count(src, "\n") + 1
-
-	if index := strings.LastIndex(src, "\n"); index >= 0 {
-		position.Column = offset - index
-	} else {
-		position.Column = len(src) + 1
+	// 7.3: the line terminators are LF, CR, LS and PS; CR LF is one.
+	position.Line = 1
+	lineStart := 0
+	for i := 0; i < len(src); i++ {
+		switch {
+		case src[i] == '\n':
+		case src[i] == '\r':
+			if i+1 < len(fl.src) && fl.src[i+1] == '\n' {
+				if i+1 >= len(src) {
+					// between CR and LF: still the old line
+					continue
+				}
+				i++
+			}
+		case strings.HasPrefix(src[i:], "\u2028"), strings.HasPrefix(src[i:], "\u2029"):
+			i += len("\u2028") - 1
+		default:
+			continue
+		}
+		position.Line++
+		lineStart = i + 1
 	}
+	position.Column = offset - lineStart + 1
 
 	if fl.sm != nil {
 		if f, _, l, c, ok := fl.sm.Source(position.Line, position.Column); ok {
